@@ -179,7 +179,13 @@ def spell_expr(e, ctx=0):
     """minimal parentheses under the grammar's precedence; ctx = minimum precedence allowed unparenthesised"""
     k = e['k']
     if k == 'num':
-        return str(e['v']) if e['v'] >= 0 or ctx == 0 else str(e['v'])
+        v = e['v']
+        rad = e.get('radix', 10)
+        if rad == 16:
+            return ('-' if v < 0 else '') + '0x%X' % abs(v)
+        if rad == 2 and v >= 0:
+            return '0b' + bin(v)[2:]
+        return str(v)
     if k == 'chr':
         return spell_chr(e['c'])
     if k == 'bool':
@@ -1026,3 +1032,59 @@ def gen_zp_program(seed):
         body = [{'t': 'loop', 'name': None, 'b': b}]
     p = _mk(outs, hooks, [], ['U'] if uses_yield else [], body)
     return p, spell_program(p), uses_yield
+
+
+def gen_literal_program(seed):
+    """C15: literals in every position - match, case-insensitive match, binary match, regex literal, string assignment,
+    string default, char constant, integer literals (decimal / hex / binary, signed)."""
+    r = random.Random(seed)
+
+    def bs(n):
+        out = []
+        for _ in range(n):
+            k = r.random()
+            if k < 0.35:
+                out.append(r.randrange(256))
+            elif k < 0.6:
+                out.append(r.choice([0, 1, 9, 10, 13, 8, 34, 92, 0x7f, 0x80, 0xff, 0xe9, 0xc9, 0x41, 0x61, 0x5a, 0x7a, 0x40, 0x5b, 0x60, 0x7b]))
+            else:
+                out.append(r.choice(b'abcXYZ019 _-'))
+        return out
+    size = r.randint(3, 6)
+    d1 = bs(r.randint(0, size - 1))
+    outs = [{'name': 's', 'type': 'str', 'size': size, 'term': True, 'default': d1 if r.random() < 0.5 else None},
+            {'name': 'u', 'type': 'str', 'size': size, 'term': False, 'default': bs(r.randint(0, size)) if r.random() < 0.4 else None},
+            {'name': 'n', 'type': 'int', 'signed': None, 'width': None, 'default': r.choice([None, 0, -1, 255, 2147483647, -2147483647])},
+            {'name': 'c', 'type': 'int', 'signed': False, 'width': 1, 'default': None}]
+    hooks = ['h']
+    body = []
+    kinds = ['str', 'stri', 'bin', 're', 'setstr', 'chr', 'num', 'cat']
+    for _ in range(r.randint(2, 4)):
+        k = r.choice(kinds)
+        if k in ('str', 'stri', 'bin'):
+            body.append({'t': 'match', 'm': {'k': k, 'bytes': bs(r.randint(1, 3))}})
+        elif k == 're':
+            b = r.choice([x for x in range(0x20, 0x7f)])
+            body.append({'t': 'match', 'm': {'k': 're', 'r': {'k': 'seq', 'c': [{'k': 'ch', 'c': b}, {'k': 'ch', 'c': r.choice(b'abc')}]}, 'bin': False}})
+        elif k == 'cat':
+            body.append({'t': 'match', 'm': {'k': 'cat', 'ms': [{'k': 'str', 'bytes': bs(1)}, {'k': 'bin', 'bytes': bs(2)}]}})
+        elif k == 'setstr':
+            tgt = r.choice(['s', 'u'])
+            cap = size - 1 if tgt == 's' else size
+            body.append({'t': 'match', 'm': {'k': 'str', 'bytes': [r.choice(b'pq')]}})
+            body.append({'t': 'setstr', 'var': tgt, 'bytes': bs(r.randint(0, cap))})
+            body.append({'t': 'hook', 'n': 'h'})
+        elif k == 'chr':
+            ch = r.choice([x for x in range(0x20, 0x7f) if x != 0x27 and x != 0x5c] + [10, 13, 9, 8, 0x27])
+            body.append({'t': 'match', 'm': {'k': 'str', 'bytes': [r.choice(b'pq')]}})
+            body.append({'t': 'set', 'var': 'c', 'e': {'k': 'chr', 'c': ch}})
+            body.append({'t': 'hook', 'n': 'h'})
+        else:
+            v = r.choice([0, 1, 7, 255, 256, 65535, 2147483647, -1, -128, -2147483647, 0x1234, 0b1011])
+            body.append({'t': 'match', 'm': {'k': 'str', 'bytes': [r.choice(b'pq')]}})
+            body.append({'t': 'set', 'var': 'n', 'e': {'k': 'num', 'v': v, 'radix': r.choice([10, 16, 2])}})
+            body.append({'t': 'hook', 'n': 'h'})
+    if body[0]['t'] != 'match':
+        body.insert(0, {'t': 'match', 'm': {'k': 'str', 'bytes': [120]}})
+    p = _mk(outs, hooks, [], [], body)
+    return p, spell_program(p)
